@@ -373,7 +373,7 @@ impl Prop for C12 {
     }
 
     const ID: &'static str = "C12";
-    const RULE: &'static str = "case = a generated valid machine (1..=4 states, all distribution families) with 0..=3 adversarial mutations: fraction <- {NaN (several payloads), +-inf, -0.0, subnormal, 1+-ulp, negative, random bits}; probability <- adversarial f32; target <- out of range / pseudo-state neighbours / duplicate; appended transitions (duplicates, sums just over 1); any distribution (valid or not) in actions and counters; empty state list; empty transition list (via the bincode mirror only); plus framework fractions from the same pool. Paths: Machine::new, validate() on the field-built value, from_str(encode(mirror)), Framework::new. Non-trivial: >=1 mutation. Distinct = hash of the case.";
+    const RULE: &'static str = "case = a generated valid machine (1..=4 states, all distribution families) with 0..=3 adversarial mutations: fraction <- {NaN (several payloads), +-inf, -0.0, subnormal, 1+-ulp, negative, random bits}; probability <- adversarial f32; target <- out of range / pseudo-state neighbours / duplicate; appended transitions (duplicates, sums just over 1); any distribution (valid or not) in actions and counters; empty state list; empty transition list (via the bincode mirror only); plus framework fractions from the same pool. Paths: Machine::new, validate() on the field-built value, from_str(encode(mirror)), Framework::new (alone, and listed before / after a well-formed machine). Non-trivial: >=1 mutation. Distinct = hash of the case.";
 
     fn profiles(tier: Tier) -> Vec<Profile> {
         match tier {
@@ -441,10 +441,21 @@ impl Prop for C12 {
         // path 4: Framework::new with valid framework fractions
         let v_fw = Framework::new(vec![unchecked.clone()], 0.0, 0.0, VInstant(0), ScriptRng::new(&[], c.seed)).map(|_| ());
 
+        // path 5: Framework::new with a well-formed machine before / after the candidate
+        let companion = {
+            let mut t: enum_map::EnumMap<maybenot::event::Event, Vec<maybenot::state::Trans>> = Default::default();
+            t[maybenot::event::Event::NormalSent] = vec![maybenot::state::Trans(0, 1.0)];
+            Machine::new(0, 0.0, 0, 0.0, vec![maybenot::state::State::new(t)]).expect("companion machine")
+        };
+        let v_fw_after = Framework::new(vec![companion.clone(), unchecked.clone()], 0.0, 0.0, VInstant(0), ScriptRng::new(&[], c.seed)).map(|_| ());
+        let v_fw_before = Framework::new(vec![unchecked.clone(), companion.clone()], 0.0, 0.0, VInstant(0), ScriptRng::new(&[], c.seed)).map(|_| ());
+
         let verdicts = [
             ("Machine::new", v_new.is_ok()),
             ("Machine::validate", v_validate.is_ok()),
             ("Framework::new", v_fw.is_ok()),
+            ("Framework::new (after a valid machine)", v_fw_after.is_ok()),
+            ("Framework::new (before a valid machine)", v_fw_before.is_ok()),
         ];
         for (name, ok) in verdicts {
             if ok {
